@@ -397,6 +397,11 @@ HISTORIES = [
      [({"Prologue.bard": ":: Start\nHi\n+ [go] -> P\n@include prologue.bard\n", "prologue.bard": ":: P\nlower\n@include Shared/items.bard\n",
         "Shared/items.bard": ":: Items\nupper dir\n@include ../shared/items.bard\n", "shared/items.bard": ":: items_lower\nlower dir\n@include ITEMS.bard\n",
         "shared/ITEMS.bard": ":: ITEMS_UP\nshouting\n"}, "Prologue.bard")]),
+    ("cycles whose hops are written with .. (they pass through another directory)",
+     [({"main.bard": ":: Start\nHi\n@include chapters/one.bard\n", "chapters/one.bard": ":: One\none\n@include ../main.bard\n"}, "main.bard"),
+      ({"main.bard": ":: Start\nHi\n@include chapters/one.bard\n", "chapters/one.bard": ":: One\none\n@include ../shared/lib.bard\n",
+        "shared/lib.bard": ":: Lib\nlib\n@include ../chapters/./one.bard\n"}, "main.bard"),
+      ({"shared/lib.bard": ":: Lib\nlib\n"}, "main.bard")]),
     ("a diamond after a failure",
      [({"main.bard": ":: Start\nHi\n@include l.bard\n@include r.bard\n", "l.bard": ":: L\nl\n@include nope.bard\n", "r.bard": ":: R\nr\n"}, "main.bard"),
       ({"l.bard": ":: L\nl\n"}, "main.bard")]),
